@@ -346,8 +346,15 @@ func (fr *Frame) mergeStates(sts []*State) *State {
 			cur = m
 		}
 		if have {
-			for i := range cur.C {
-				cur.C[i] = fr.ctx.Def("m", cur.C[i])
+			if cur.K == KNormal {
+				nc := make([]Term, len(cur.C))
+				for i := range cur.C {
+					nc[i] = fr.ctx.Def("m", cur.C[i])
+				}
+				cur.C = nc
+				if cur.Alt.S != "" {
+					cur.Alt = fr.ctx.Def("ma", cur.Alt)
+				}
 			}
 			out.cells[k] = cur
 		}
@@ -629,9 +636,9 @@ func (fr *Frame) enterLoop(st *State, li *loopInfo, run *loopRun) *State {
 		if id, ok := fr.cellOf[li.rangeCell]; ok {
 			idx := nst.cells[id].Term()
 			lim := fr.val(nst, li.rangeLim).Term()
-			fr.assume(nst, And(BVCmp("bvsle", BV(-1, 64), idx), BVCmp("bvslt", idx, lim)))
+			fr.assume(nst, And(ILe(IntT(-1), idx), ILt(idx, lim)))
 			// the entry obligation for these facts: idx == -1 and 0 <= lim holds by construction
-			fr.oblige(st, "inv-entry", lname+".rangeindex", And(BVCmp("bvsle", BV(-1, 64), st.cells[id].Term()), BVCmp("bvslt", st.cells[id].Term(), fr.val(st, li.rangeLim).Term())), nil, pos)
+			fr.oblige(st, "inv-entry", lname+".rangeindex", And(ILe(IntT(-1), st.cells[id].Term()), ILt(st.cells[id].Term(), fr.val(st, li.rangeLim).Term())), nil, pos)
 		}
 	}
 	if spec != nil {
@@ -649,7 +656,7 @@ func (fr *Frame) enterLoop(st *State, li *loopInfo, run *loopRun) *State {
 			if id, ok := fr.cellOf[li.rangeCell]; ok {
 				idx := nst.cells[id].Term()
 				lim := fr.val(nst, li.rangeLim).Term()
-				run.dec0 = []Val{scalar(types.Typ[types.Int], BVOp("bvsub", lim, idx))}
+				run.dec0 = []Val{scalar(types.Typ[types.Int], ISub(lim, idx))}
 			}
 		}
 	}
@@ -674,7 +681,7 @@ func (fr *Frame) backEdge(st *State, li *loopInfo, run *loopRun, from *ssa.Basic
 		if id, ok := fr.cellOf[li.rangeCell]; ok {
 			idx := st.cells[id].Term()
 			lim := fr.val(st, li.rangeLim).Term()
-			fr.oblige(st, "inv-preserved", lname+".rangeindex", And(BVCmp("bvsle", BV(-1, 64), idx), BVCmp("bvslt", idx, lim)), nil, pos)
+			fr.oblige(st, "inv-preserved", lname+".rangeindex", And(ILe(IntT(-1), idx), ILt(idx, lim)), nil, pos)
 		}
 	}
 	if spec != nil {
@@ -696,7 +703,7 @@ func (fr *Frame) backEdge(st *State, li *loopInfo, run *loopRun, from *ssa.Basic
 		}
 	} else if li.rangeCell != nil && li.rangeLim != nil {
 		if id, ok := fr.cellOf[li.rangeCell]; ok {
-			dec1 = []Val{scalar(types.Typ[types.Int], BVOp("bvsub", fr.val(st, li.rangeLim).Term(), st.cells[id].Term()))}
+			dec1 = []Val{scalar(types.Typ[types.Int], ISub(fr.val(st, li.rangeLim).Term(), st.cells[id].Term()))}
 		}
 	}
 	if len(run.dec0) > 0 && len(dec1) == len(run.dec0) {
@@ -706,7 +713,7 @@ func (fr *Frame) backEdge(st *State, li *loopInfo, run *loopRun, from *ssa.Basic
 		for i := range dec1 {
 			a0 := fr.coerceInt(run.dec0[i])
 			a1 := fr.coerceInt(dec1[i])
-			alts = append(alts, And(eqPrefix, BVCmp("bvslt", a1, a0), BVCmp("bvsle", BV(0, 64), a0)))
+			alts = append(alts, And(eqPrefix, ILt(a1, a0), ILe(IntT(0), a0)))
 			eqPrefix = And(eqPrefix, Eq(a0, a1))
 		}
 		fr.oblige(st, "decreases", lname, Or(alts...), nil, pos)
@@ -717,14 +724,13 @@ func (fr *Frame) backEdge(st *State, li *loopInfo, run *loopRun, from *ssa.Basic
 
 func (fr *Frame) coerceInt(v Val) Term {
 	if v.K == KConst {
-		return BVBig(v.Big.(*bigInt).v, 64)
+		return IntBig(v.Big.(*bigInt).v)
 	}
 	t := v.Term()
-	w := sortWidth(t.Sort)
-	if w == 0 {
+	if t.Sort != SInt && sortWidth(t.Sort) == 0 {
 		panic(contractErr("decreases component is not an integer"))
 	}
-	return Resize(t, 64, isSigned(v.T))
+	return toInt(t, v.T)
 }
 
 func allocName(a *ssa.Alloc) string {
